@@ -86,7 +86,7 @@ type verifRef struct {
 // VerifC25_Blocklist: histories of Add/Remove/Exists/Peers on two peers at
 // arbitrary non-decreasing clock times.
 func VerifC25_Blocklist() {
-	steps := zzverif.Param("steps", 3, 5)
+	steps := zzverif.Param("steps", 3, 4)
 	zzverif.Unwind(64)
 	// the clock is harness state: it advances by an arbitrary amount before every
 	// operation and timeNow() reads it (so the instant of a request does not
